@@ -273,7 +273,12 @@ func (c *Classifier) Normalize(in []byte) []byte {
 	}
 
 	prevLine := 1
-	buf.WriteString(c.dict.getWord(doc.Tokens[0].ID))
+	// An EOL token in first position (the first line holds no words) is written
+	// by the line-advance logic below like every other EOL token; writing it
+	// here as well would push all following text one line down.
+	if first := c.dict.getWord(doc.Tokens[0].ID); first != eol {
+		buf.WriteString(first)
+	}
 	for _, t := range doc.Tokens[1:] {
 		// Only write out an EOL token that incremented the line
 		if t.Line == prevLine+1 {
